@@ -1,6 +1,75 @@
-(* placeholder; theorems follow *)
-From Coq Require Import String List.
-From Glom Require Import Base.PyVal Model.Interp.
-Theorem head_mode_nil : head_mode nil = AUTO.
-Proof. reflexivity. Qed.
-Print Assumptions head_mode_nil.
+(* Properties/C08.v — modes apply exactly to the wrapped spec; Fill and argument mode keep shape. *)
+From Coq Require Import String ZArith Bool List.
+From Glom Require Import Base.PyVal Model.TEval Model.Interp Proofs.InterpProofs.
+Import ListNotations.
+Local Open Scope string_scope.
+Local Open Scope list_scope.
+
+(* a mode wrapper in a chain affects its own step only: (w, b) evaluates b exactly as glom(glom(t, w), b) does, in the
+   chain's own mode, whatever mode w switched to inside (Fill, Auto, Match are not binders) *)
+Theorem mode_ends_with_its_wrapper : forall fuel own sc t w b,
+  (exists s, w = SFill s \/ w = SAuto s \/ exists d, w = SMatch s d) -> farg own = false ->
+  eqM (chain_loop true (glom_ true (S fuel)) (fmode own) [w; b] (own :: sc) t)
+      (let! (v, _) := glom_ true (S fuel) (own :: sc) t w in
+       match v with
+       | VStop => ret t
+       | VSkip => let! (x, _) := glom_ true (S fuel) (own :: sc) t b in ret (keep_if_signal t x)
+       | _ => let! (x, _) := glom_ true (S fuel) (own :: sc) v b in ret (keep_if_signal v x) end).
+Proof.
+  intros fuel own sc t w b [s [->|[->|[d ->]]]] Ha; apply tuple_compose_lemma; auto.
+Qed.
+Print Assumptions mode_ends_with_its_wrapper.
+
+(* the law is FALSE for the pinned chain_child (MODE copied from the previous link): the Coq image of the defect *)
+Theorem mode_leak_refuted_on_pinned :
+  exists t w b, fst (glom_top false [] t (STuple [w; b]))
+             <> match fst (glom_top false [] t w) with Ok v => fst (glom_top false [] v b) | r => r end.
+Proof.
+  exists (VDict 1 false [(VStr "a", VStr "one")]), (SFill (ST RT [])), (SStr "a"). vm_compute. discriminate.
+Qed.
+Print Assumptions mode_leak_refuted_on_pinned.
+
+(* inside a wrapper everything is evaluated in the wrapper's mode: the child frame inherits the parent's mode *)
+Theorem wrapper_sets_mode_for_subspec : forall fixed rec sc t s,
+  glom_body fixed rec sc t (SFill s)
+  = (let own' := mkFrame [] FILL false [] in let! (v, _) := rec (own' :: sc) t s in ret (v, own')).
+Proof. exact wrapper_sets_mode. Qed.
+Print Assumptions wrapper_sets_mode_for_subspec.
+
+(* Fill mode and argument position rebuild containers with the same type and length ... *)
+Theorem fill_keeps_list_shape : forall fixed rec sc t ss st v f st',
+  head_arg sc = false -> head_mode sc = FILL ->
+  glom_body fixed rec sc t (SList ss) st = (Ok (v, f), st') -> exists vs, v = VList 0 vs /\ length vs = length ss.
+Proof. exact fill_list_shape. Qed.
+Print Assumptions fill_keeps_list_shape.
+Theorem fill_keeps_tuple_shape : forall fixed rec sc t ss st v f st',
+  head_arg sc = false -> head_mode sc = FILL ->
+  glom_body fixed rec sc t (STuple ss) st = (Ok (v, f), st') -> exists vs, v = VTuple 0 vs /\ length vs = length ss.
+Proof. exact fill_tuple_shape. Qed.
+Print Assumptions fill_keeps_tuple_shape.
+Theorem argmode_keeps_list_shape : forall fixed rec sc t ss st v f st',
+  head_arg sc = true ->
+  glom_body fixed rec sc t (SList ss) st = (Ok (v, f), st') -> exists vs, v = VList 0 vs /\ length vs = length ss.
+Proof. exact arg_list_shape. Qed.
+Print Assumptions argmode_keeps_list_shape.
+
+(* ... strings are literals in both, callables are literals in argument position *)
+Theorem fill_strings_are_literal : forall fixed rec sc t k st, head_arg sc = false -> head_mode sc = FILL ->
+  fst (glom_body fixed rec sc t (SStr k) st) = Ok (VStr k, mkFrame [] FILL false []).
+Proof. exact fill_string_literal. Qed.
+Print Assumptions fill_strings_are_literal.
+Theorem argmode_strings_are_literal : forall fixed rec sc t k st, head_arg sc = true ->
+  fst (glom_body fixed rec sc t (SStr k) st) = Ok (VStr k, mkFrame [] (head_mode sc) true []).
+Proof. exact arg_string_literal. Qed.
+Print Assumptions argmode_strings_are_literal.
+Theorem argmode_callables_are_literal : forall fixed rec sc t g st, head_arg sc = true ->
+  fst (glom_body fixed rec sc t (SFn g) st) = Ok (VFun g, mkFrame [] (head_mode sc) true []).
+Proof. exact arg_callable_literal. Qed.
+Print Assumptions argmode_callables_are_literal.
+
+(* non-vacuity *)
+Definition ex_t : val := VDict 1 false [(VStr "a", VStr "one")].
+Example ex_fixed : fst (glom_top true [] ex_t (STuple [SFill (ST RT []); SStr "a"])) = Ok (VStr "one").
+Proof. vm_compute. reflexivity. Qed.
+Example ex_fill : fst (glom_top true [] ex_t (SFill (STuple [SStr "a"; ST RT [("[", SStr "a")]]))) = Ok (VTuple 0 [VStr "a"; VStr "one"]).
+Proof. vm_compute. reflexivity. Qed.
